@@ -88,7 +88,7 @@ def run(tier, prop=PROP, module=MODULE, files=FILES):
         for gname, rpx in (("uniform", i_ * 0.8), ("stretched", i_ * (1 + 0.004 * i_))):
             wpx = rpx[-1] / 4
             errs = {}
-            for unit in (1.0, 1e-6, 1e-3, 1e4):
+            for unit in (1.0, 1e-6, 1e-3, 1e4, 1e-13, 1e-16):
                 r_, w_ = rpx * unit, wpx * unit
                 src = np.exp(-(r_ / w_) ** 2)
                 prj = np.sqrt(np.pi) * w_ * src
